@@ -115,6 +115,13 @@ pub mod async_fs {
         open spec fn cur(&self) -> Seq<u8> { self.content() }
         #[verifier::prophetic]
         open spec fn end(&self) -> Seq<u8> { self.fend() }
+        open spec fn accepted(&self) -> nat { self.content().len() }
+        #[verifier::prophetic]
+        open spec fn end_accepted(&self) -> nat { self.fend().len() }
+        #[verifier::prophetic]
+        open spec fn deep(&self) -> Seq<u8> { self.fend() }
+        #[verifier::prophetic]
+        open spec fn end_deep(&self) -> Seq<u8> { self.fend() }
         #[verifier::external_body]
         proof fn resolved(&self) {}
         #[verifier::external_body]
